@@ -591,7 +591,6 @@ func (k Keeper) CancelLimitAuctionBid(ctx sdk.Context, bidder string, DebtTokenI
 		//updating fees in auction data
 		feeData, found := k.GetAuctionLimitBidFeeData(ctx, DebtTokenId)
 		if !found {
-			var feeData types.AuctionFeesCollectionFromLimitBidTx
 			feeData.AssetId = DebtTokenId
 			feeData.Amount = feesToBeCollected
 		} else {
@@ -656,7 +655,6 @@ func (k Keeper) WithdrawLimitAuctionBid(ctx sdk.Context, bidder string, Collater
 		//updating fees in auction data
 		feeData, found := k.GetAuctionLimitBidFeeData(ctx, DebtTokenId)
 		if !found {
-			var feeData types.AuctionFeesCollectionFromLimitBidTx
 			feeData.AssetId = DebtTokenId
 			feeData.Amount = feesToBeCollected
 		} else {
